@@ -88,6 +88,16 @@ CHECKS["C16"] = dict(
          "semantics of logical types.",
     ref="DESIGN.md §3 C16")
 
+CHECKS["C17"] = dict(
+    technique="static analysis: switch-table extraction vs the textbook level definition, exhaustive abstract evaluation of sibling level expressions over the 3 repetition values, dominance",
+    text="Table clauses: the reader's walk adds (def,rep) = OPTIONAL (1,0), REPEATED (1,1), REQUIRED (0,0), passes the "
+         "accumulated pair to children, stores it at leaves, consumes exactly its subtree; builder, writer and node "
+         "accessors give the same levels for a flat leaf; one leaf predicate for counting and walking; "
+         "schema_ensure_capacity grows the four parallel arrays together and dominates every append; accessors "
+         "return the field of the same name. Not decided: leaf order/levels for arbitrary trees under a rewritten "
+         "walk (a non-recursive rewrite makes the anchor vanish: exit 2, human review).",
+    ref="DESIGN.md §3 C17")
+
 NOT_APPLICABLE = {
     "C10": "conformance of Snappy/LZ4 streams to the external grammars is a statement about emitted/accepted byte values; no structural clause beyond the decoder bounds already decided under C08 (DESIGN.md §6)",
     "C12": "conformance of encoder output to the Parquet encoding specification needs an independent codec as value oracle; no sound structural clause (DESIGN.md §6)",
